@@ -1,10 +1,11 @@
 /- The table of all driver operations.  Each group adds its own list here. -/
 import Strengths.Driver.Units
 import Strengths.Driver.Grid
+import Strengths.Driver.Trajectory
 
 namespace Strengths.Driver
 
 def allOps : List (String × Handler) :=
-  unitsOps ++ gridOps
+  unitsOps ++ gridOps ++ trajOps
 
 end Strengths.Driver
